@@ -86,23 +86,21 @@ theorem handleDataMsg_sameQ {w w' : World} {k j : Nat} {sm : Trxd.TxMsg} {m : Tr
       clear hd
       split at h
       · repeat' (first | contradiction | split at h)
-        all_goals first
-          | (simp only [Except.ok.injEq, Prod.mk.injEq] at h
-             obtain ⟨rfl, -⟩ := h
-             exact h1)
-          | (trace_state; sorry)
+        all_goals
+          simp only [Except.ok.injEq, Prod.mk.injEq] at h
+          obtain ⟨rfl, -⟩ := h
+          exact h1
       · simp only [bind, Except.bind, pure, Except.pure, throw, throwThe, MonadExceptOf.throw] at h
         repeat' (first | contradiction | split at h)
-        all_goals first
-          | (simp only [Except.ok.injEq, Prod.mk.injEq] at h
-             obtain ⟨rfl, -⟩ := h
-             first
-             | exact h1
-             | exact h1.trans (randAround_same (by assumption))
-             | exact h1.trans ((randAround_same (by assumption)).trans (randAround_same (by assumption)))
-             | exact h1.trans ((randAround_same (by assumption)).trans ((randAround_same (by assumption)).trans (randAround_same (by assumption)))))
-          | (trace_state; sorry)
-          -- (maxDepth := 8) [SameQ.trans, SameQ.randAround]
+        all_goals
+          simp only [Except.ok.injEq, Prod.mk.injEq] at h
+          obtain ⟨rfl, -⟩ := h
+          first
+          | exact h1
+          | exact h1.trans (randAround_same (by assumption))
+          | exact h1.trans ((randAround_same (by assumption)).trans (randAround_same (by assumption)))
+          | exact h1.trans ((randAround_same (by assumption)).trans
+              ((randAround_same (by assumption)).trans (randAround_same (by assumption))))
   next => cases h
 
 theorem forwardMsg_go_sameQ (j : Nat) (fn : Nat) (txFreq : Option Int) (msg : Trxd.TxMsg) :
